@@ -427,6 +427,7 @@ fn main() {
 fn body(run: &Run, replay: Option<&Value>) {
     run.rule("a case is (font, glyph(s), configuration, perturbation) where the perturbation is a second draw, a caller buffer (alignment, fill), a zero-vector location, a reconfigure history, a draw-order history or a thread schedule; distinct = distinct (case, observed result) digests; non-trivial = the reference draw succeeded with a non-empty pen stream (parts 1-3) / the schedule let more than one thread pass the metrics read before the first publish (part 4 reports this histogram)");
     run.assume("oracle is differential: the perturbed draw must equal the unperturbed draw of the same glyph and configuration made through a fresh instance with library-allocated memory");
+    run.assume("auxiliary free-running pass of part 4 (real OS threads, barrier per round, fresh shared Auto instance per round) is SAMPLING, not the deciding exploration: it exists to catch work moved between the hook sites or accesses finer than them, which the schedule search executes atomically; a mismatch it reports is a real failing execution, its silence proves nothing beyond the executions that ran");
     run.assume("interpreter and unhinted draws contain no interior mutability (DESIGN §1), so only the auto-hinter's lazy metrics are schedule-explored; shuttle threads yield exactly at the three hook sites");
     if !skrifa::verif_hooks::install_sched_hook(sk_hook) {
         run.machinery_error("could not install the skrifa scheduling hook");
@@ -476,6 +477,8 @@ fn body(run: &Run, replay: Option<&Value>) {
     lap("3 histories", run);
     part4_schedules(run, fonts);
     lap("4 schedules", run);
+    part4b_free_running(run, fonts, None);
+    lap("4b free-running (sampling)", run);
     part1_wellformed(run, &wide);
     lap("1 well-formedness", run);
     part2_buffers(run, &wide);
@@ -1146,9 +1149,86 @@ fn part4_schedules(run: &Run, fonts: &[Loaded]) {
     run.observe_many(&all, &nontrivial);
     let raced: u64 = hist.iter().filter(|(k, _)| !k.ends_with("_0")).map(|(_, v)| *v).sum();
     run.extra("part4_metrics_computation_histogram", json!(hist));
-    if raced == 0 {
+    if raced == 0 && run.violations() == 0 {
         run.machinery_error("no schedule made two threads compute the same metrics (race not explored: hook sites not reached?)");
     }
+}
+
+// =============================================================================================
+// part 4b: free-running pass (auxiliary, sampling)
+// =============================================================================================
+
+/// `T` real OS threads draw through one shared Auto instance that is fresh in every round (so the
+/// lazy metrics race happens in every round); a barrier releases them together. Even rounds: all
+/// threads draw the same glyph; odd rounds: different glyphs. Fixed thread and round counts.
+/// Returns the number of mismatching draws.
+fn part4b_free_running(run: &Run, fonts: &[Loaded], only_font: Option<usize>) -> u64 {
+    const T: usize = 16;
+    let mut report = vec![];
+    let mut total_mismatches = 0u64;
+    for (fi, f) in fonts.iter().enumerate() {
+        if !f.name.contains("autohint_metrics") || only_font.map(|o| o != fi).unwrap_or(false) {
+            continue;
+        }
+        // CJK metrics cost ~1 ms per computation: fewer rounds for that font
+        let rounds: usize = if f.name.contains("seriftc") { run.tier.pick(400, 8000) } else { run.tier.pick(3000, 60000) };
+        let styles = GlyphStyles::new(&f.outlines);
+        let mk = |opt: u8| {
+            HintingInstance::new(&f.outlines, Size::new(16.0), LocationRef::default(), HintingOptions { engine: Engine::Auto(Some(styles.clone())), target: options_of(opt).target })
+        };
+        let glyphs: Vec<(u32, OutlineGlyph)> = (0..f.n_glyphs.min(24)).filter_map(|g| f.outlines.get(GlyphId::new(g)).map(|gl| (g, gl))).collect();
+        // sequential references, one fresh instance per glyph, for both targets used
+        let mut refs: Vec<[Outcome; 2]> = vec![];
+        for (_, gl) in &glyphs {
+            let a = draw(gl, &How::Hinted(&mk(3).unwrap()), None);
+            let b = draw(gl, &How::Hinted(&mk(4).unwrap()), None);
+            refs.push([a, b]);
+        }
+        let insts: Vec<HintingInstance> = (0..rounds).map(|r| mk(if r % 4 < 2 { 3 } else { 4 }).unwrap()).collect();
+        let barrier = std::sync::Barrier::new(T);
+        let first: Mutex<Option<(usize, usize, u32, String)>> = Mutex::new(None);
+        let mismatches = std::sync::atomic::AtomicU64::new(0);
+        let (glyphs, refs, insts, barrier, first, mismatches) = (&glyphs, &refs, &insts, &barrier, &first, &mismatches);
+        std::thread::scope(|sc| {
+            for t in 0..T {
+                std::thread::Builder::new()
+                    .stack_size(8 << 20)
+                    .spawn_scoped(sc, move || {
+                        for r in 0..rounds {
+                            let gi = if r % 2 == 0 { (r / 2) % glyphs.len() } else { (r + t * 5) % glyphs.len() };
+                            let which = if r % 4 < 2 { 0 } else { 1 };
+                            barrier.wait();
+                            let o = draw(&glyphs[gi].1, &How::Hinted(&insts[r]), None);
+                            if o != refs[gi][which] {
+                                mismatches.fetch_add(1, std::sync::atomic::Ordering::Relaxed);
+                                let mut fm = first.lock().unwrap();
+                                if fm.is_none() {
+                                    *fm = Some((t, r, glyphs[gi].0, format!("{} vs sequential reference {}", o.brief(), refs[gi][which].brief())));
+                                }
+                            }
+                        }
+                    })
+                    .expect("spawn");
+            }
+        });
+        let n = (T * rounds) as u64;
+        let mm = mismatches.load(std::sync::atomic::Ordering::Relaxed);
+        total_mismatches += mm;
+        run.evals(n);
+        run.count("part4b_free_running_draws", n);
+        run.observe(digest_of(&("p4b", fi, rounds)), true);
+        report.push(json!({"font": f.name, "threads": T, "rounds": rounds, "draws": n, "mismatches": mm}));
+        let first_mismatch = first.lock().unwrap().clone();
+        if let Some((t, r, gid, what)) = first_mismatch {
+            run.violation(
+                "free-running concurrent draws through a shared Auto HintingInstance differ from the sequential reference",
+                &format!("{}: {T} OS threads x {rounds} barrier rounds, thread {t} in round {r} gid {gid}: {what} ({mm} of {n} draws differ)", f.name),
+                json!({"part": "4b", "font": fi, "gid": gid}),
+            );
+        }
+    }
+    run.extra("free_running_pass", json!({"kind": "sampling, not the deciding exploration", "groups": report}));
+    total_mismatches
 }
 
 // =============================================================================================
@@ -1185,6 +1265,12 @@ fn replay_case(run: &Run, fonts: &[Loaded], case: &Value) {
             if got != fresh {
                 report_history(run, fonts, &h, &first_diff(&got, &fresh), cloned);
             }
+        }
+        "4b" => {
+            // sampling pass: re-run it for that font; it may or may not hit the same execution again
+            let n_f = fonts.iter().position(|f| f.extra).unwrap_or(fonts.len());
+            let mm = part4b_free_running(run, &fonts[..n_f], Some(case["font"].as_u64().unwrap() as usize));
+            println!("free-running pass re-run: {mm} mismatching draws");
         }
         "4" => {
             let fonts_s: &'static [Loaded] = unsafe { std::mem::transmute::<&[Loaded], &'static [Loaded]>(fonts) };
